@@ -1,5 +1,6 @@
 import Pm.TelnetPass
 import Pm.CapProof
+import Pm.CbufRingRun
 /-! # C09 — the byte streams between the daemon and its devices and clients are carried faithfully
 
 What expect patterns are matched against is exactly the byte stream the device sent on the current connection — in
@@ -25,7 +26,8 @@ Sections: 1 segmentation independence ▸ 2 what the decoder keeps (specificatio
 3 the read side: `_handle_ready_device`, `_process_expect`, any interleaving ▸ 4 reconnects ▸ 5 the write side ▸
 6 whole passes of `dev_post_poll` and runs of passes (the property as an invariant of the daemon loop) ▸
 7 capacity: what is read is a prefix, the size invariant, no loss below the maximum, the exact loss at the maximum,
-short writes. -/
+short writes ▸ 8 the ring itself: liblsd's `cbuf.c` at index level (`Pm/CbufRing.lean`: `data`, `i_in`, `i_out`, `i_rep`,
+`got_wrap`, two-piece copies, `cbuf_grow`'s re-layout) refines the byte queue with the size rule used in sections 1–7. -/
 namespace Pm.Props.C09
 open Pm.Dev2
 open Pm.Dev2.Tel Pm.Daemon.Tel
@@ -696,5 +698,320 @@ example :
                              wcap := 0 },
                     sys := [] }
     (handleReady c).1.dev.toBuf = [111, 110, 10] ∧ (handleReady c).2 = true := by decide
+
+/-! ## 8. the ring: `liblsd/cbuf.c` at index level refines the byte queue
+
+`Pm/CbufRing.lean` mirrors `cbuf.c` line by line with its indices (compared with the real code op by op by
+`lib/cbuflayer.py`).  `Ring.valid` is `cbuf_is_valid` (every assertion of it); `Ring.contents` reads the unread bytes off
+the array from `i_out` to `i_in` modulo `size + 1`.  The theorems below say that, for **every** ring state that satisfies
+`cbuf_is_valid` — any size, any fill level, wrapped or not, with or without replay region — every operation keeps
+`cbuf_is_valid`, fires none of the other assertions of `cbuf.c`, and does to `contents` what a plain byte queue with the
+documented overwrite rule does; the size follows `Pm.Cbuf.growTo`, the rule the daemon model of section 7 uses.
+Descriptors are inputs: `Src` / `Dst` say what each `read` / `write` call will answer, so "for all short reads and short
+writes" is a universal quantifier.  Not modelled: `int` overflow (sizes are naturals), `realloc` failure, the replay
+functions (unused by powerman; `i_rep` and `got_wrap` are maintained and their assertions proved). -/
+
+section ring
+open Pm.CbufRing
+
+/-- eight slots (+ the sentinel), six bytes written, five dropped, five more written: the unread bytes `6 7 \n 9 \n 11` lie
+    across the end of the array (`i_out = 5`, `i_in = 2`) — the ring the examples below use -/
+def wrappedRing : Ring :=
+  match CbufRing.create 8 8 with
+  | none => default
+  | some r => (CbufRing.write (CbufRing.drop (CbufRing.write r [1, 2, 3, 4, 5, 6]).ring 5).2.1 [7, 10, 9, 10, 11]).ring
+
+example : wrappedRing.valid = true ∧ wrappedRing.size = 8 ∧ wrappedRing.i_out = 5 ∧ wrappedRing.i_in = 2 ∧ wrappedRing.used = 6 ∧
+    wrappedRing.contents = [6, 7, 10, 9, 10, 11] := by decide
+
+/-- the same with room to CbufRing.grow (8 → 32), wrapped, full: the next write must CbufRing.grow a wrapped ring -/
+def wrappedFull : Ring :=
+  match CbufRing.create 8 32 with
+  | none => default
+  | some r => (CbufRing.write (CbufRing.drop (CbufRing.write r [1, 2, 3, 4, 5, 6]).ring 5).2.1 [7, 10, 9, 10, 11, 12, 13]).ring
+
+example : wrappedFull.valid = true ∧ wrappedFull.size = 8 ∧ wrappedFull.used = 8 ∧ wrappedFull.i_out = 5 ∧ wrappedFull.i_in = 4 ∧
+    wrappedFull.contents = [6, 7, 10, 9, 10, 11, 12, 13] := by decide
+
+/-- `cbuf_create (min, max)` with `min > 0` gives a ring that satisfies `cbuf_is_valid`, holds nothing, has size `min`
+    and limit `max (min, max)`, in mode `CBUF_WRAP_MANY`. -/
+theorem C09_ring_create (mn mx : Int) (h : 0 < mn) :
+    ∃ r, CbufRing.create mn mx = some r ∧ r.valid = true ∧ r.contents = [] ∧ r.size = mn.toNat ∧ r.minsize = mn.toNat ∧
+      r.maxsize = (if mx > mn then mx.toNat else mn.toNat) ∧ r.overwrite = .wrapMany := by
+  obtain ⟨r, hr⟩ := create_some mn mx h
+  have hf := create_fields mn mx r hr
+  exact ⟨r, hr, (valid_iff r).mpr (create_valid mn mx r hr), create_contents mn mx r hr, hf.1, hf.2.1, hf.2.2.1, hf.2.2.2.2⟩
+
+example : ∃ r, CbufRing.create 1024 65536 = some r ∧ r.size = 1024 ∧ r.maxsize = 65536 := by
+  obtain ⟨r, h1, _, _, h2, _, h3, _⟩ := C09_ring_create 1024 65536 (by decide)
+  exact ⟨r, h1, h2, h3⟩
+
+/-- **The assertions of `cbuf.c` can never fire.**  Start from any ring that satisfies `cbuf_is_valid` (for instance a
+    fresh one) and make any sequence of calls of the API powerman uses — `cbuf_opt_set`, `cbuf_flush`, `cbuf_drop`,
+    `cbuf_peek`, `cbuf_write`, `cbuf_write_from_fd`, `cbuf_read_to_fd`, `cbuf_read_line` — with any arguments, any data, any
+    answers of the descriptors: `cbuf_is_valid` holds at the end (hence after every call), and every assertion evaluated
+    on the way (`cbuf_is_valid` at entry and exit, and the inner ones: `len > 0`, `len <= cb->used` in `cbuf_dropper`,
+    `i_dst == (i_in + n) % (size + 1)` in `cbuf_writer`, `m > cb->alloc` in `cbuf_grow`, `l == m` in `cbuf_read_line`, …) held. -/
+theorem C09_ring_asserts_never_fire (r : Ring) (ops : List CbufRing.Op) (h : r.valid = true) :
+    (CbufRing.run r ops).1.valid = true ∧ (CbufRing.run r ops).2 = true :=
+  ⟨(valid_iff _).mpr (run_valid r ops ((valid_iff r).mp h)).1, (run_valid r ops ((valid_iff r).mp h)).2⟩
+
+example : (CbufRing.run wrappedFull [.wr [1, 2, 3], .rdFd (-1) { out := [], caps := [2, -1] }, .wrFd (-1) { avail := [9, 9], caps := [1], eof := false },
+    .rdLine 100 1, .dropN 1000, .flushAll]).2 = true := by decide
+
+/-- Through any call the limits stay what they were and the size never shrinks (`cbuf_shrink` is not implemented). -/
+theorem C09_ring_size_monotone (r : Ring) (op : CbufRing.Op) (h : r.valid = true) :
+    (op.apply r).1.maxsize = r.maxsize ∧ (op.apply r).1.minsize = r.minsize ∧ r.size ≤ (op.apply r).1.size ∧
+      (op.apply r).1.size ≤ r.maxsize := by
+  have hv := (valid_iff r).mp h
+  have h1 := Op.apply_size r op hv
+  have h2 := (Op.apply_valid r op hv).1.le_max
+  exact ⟨h1.1, h1.2.1, h1.2.2, by rw [← h1.1]; exact h2⟩
+
+/-- `cbuf_peek (cb, buf, len)`: `min len used` is returned and `buf` receives exactly the first `len` unread bytes, also
+    when they lie across the end of the array (two `memcpy`s); the ring is not touched (the model's `peek` returns no
+    ring: `cbuf_reader` only reads it — the harness confirms this on the real code after every peek). -/
+theorem C09_ring_peek (r : Ring) (len : Int) (h : r.valid = true) (hl : 0 ≤ len) :
+    CbufRing.peek r len = (((min len.toNat r.used : Nat) : Int), r.contents.take len.toNat, true) := by
+  obtain ⟨h1, _, h3⟩ := peek_spec r len ((valid_iff r).mp h)
+  obtain ⟨h4, h5⟩ := h3 hl
+  exact Prod.ext h4 (Prod.ext h5 h1)
+
+/-- four bytes from `i_out = 5` in an array of nine slots: `6 7 \n 9` with the wrap after the third -/
+example : CbufRing.peek wrappedRing 5 = (5, [6, 7, 10, 9, 10], true) := by decide
+
+/-- `cbuf_drop (cb, len)`: `min len used` (`used` for -1) is returned and exactly that many of the oldest unread bytes
+    are gone; the rest is unchanged and in order. -/
+theorem C09_ring_drop (r : Ring) (len : Int) (h : r.valid = true) (hl : -1 ≤ len) :
+    (CbufRing.drop r len).1 = (dropCount r len : Nat) ∧
+    (CbufRing.drop r len).2.1.contents = r.contents.drop (dropCount r len) ∧ dropCount r len ≤ r.used := by
+  obtain ⟨_, _, _, h4⟩ := drop_spec r len ((valid_iff r).mp h)
+  exact ⟨(h4 hl).1, (h4 hl).2, by unfold dropCount; split <;> omega⟩
+
+example : (CbufRing.drop wrappedRing 4).2.1.contents = [10, 11] ∧ (CbufRing.drop wrappedRing 4).2.1.i_out = 0 := by decide
+example : (CbufRing.drop wrappedRing 100).1 = 6 ∧ (CbufRing.drop wrappedRing 100).2.1.contents = [] := by decide
+
+/-- `cbuf_read_to_fd (cb, fd, len)` — "bytes queued for a device or client are delivered exactly once and in order
+    however the writes are split": whatever each `write` call on the descriptor accepts (everything, a part, nothing,
+    an error; the first piece up to the end of the array and then an error on the second …), if the return value is
+    `n > 0` then exactly the first `n` unread bytes were written to the descriptor, in order, and exactly these `n` left
+    the ring; if the return value is `≤ 0` nothing was written and the ring is as it was.  So what was written so far
+    followed by what is still unread is always what was queued. -/
+theorem C09_ring_read_to_fd (r : Ring) (len : Int) (d : Dst) (h : r.valid = true) (hl : -1 ≤ len) :
+    (0 < (CbufRing.readToFd r len d).1 →
+      (CbufRing.readToFd r len d).1 ≤ (min (readLen r len) r.used : Nat) ∧
+      (CbufRing.readToFd r len d).2.2.1.out = d.out ++ r.contents.take (CbufRing.readToFd r len d).1.toNat ∧
+      (CbufRing.readToFd r len d).2.1.contents = r.contents.drop (CbufRing.readToFd r len d).1.toNat) ∧
+    ((CbufRing.readToFd r len d).1 ≤ 0 → (CbufRing.readToFd r len d).2.2.1.out = d.out ∧ (CbufRing.readToFd r len d).2.1 = r) ∧
+    (CbufRing.readToFd r len d).2.2.1.out ++ (CbufRing.readToFd r len d).2.1.contents = d.out ++ r.contents := by
+  obtain ⟨_, _, _, h4⟩ := readToFd_spec r len d ((valid_iff r).mp h)
+  obtain ⟨h5, h6, h7⟩ := h4 hl
+  refine ⟨fun hp => ⟨h5, (h6 hp).1, (h6 hp).2⟩, h7, ?_⟩
+  by_cases hp : 0 < (CbufRing.readToFd r len d).1
+  · rw [(h6 hp).1, (h6 hp).2, List.append_assoc, List.take_append_drop]
+  · rw [(h7 (by omega)).1, (h7 (by omega)).2]
+
+/-- the descriptor takes the first piece (`6 7 \n 9`, up to the end of the array) and refuses the second `write`: four
+    bytes are reported and gone, `\n 11` stays -/
+example : (CbufRing.readToFd wrappedRing (-1) { out := [], caps := [4, -1] }).1 = 4 ∧
+    (CbufRing.readToFd wrappedRing (-1) { out := [], caps := [4, -1] }).2.2.1.out = [6, 7, 10, 9] ∧
+    (CbufRing.readToFd wrappedRing (-1) { out := [], caps := [4, -1] }).2.1.contents = [10, 11] := by decide
+/-- both pieces go out with two `write` calls -/
+example : (CbufRing.readToFd wrappedRing (-1) { out := [], caps := [] }).2.2.1.out = [6, 7, 10, 9, 10, 11] := by decide
+/-- a descriptor that takes nothing: -1, nothing lost -/
+example : (CbufRing.readToFd wrappedRing (-1) { out := [], caps := [-1] }).1 = -1 ∧
+    (CbufRing.readToFd wrappedRing (-1) { out := [], caps := [-1] }).2.1.contents = wrappedRing.contents := by decide
+
+/-- `cbuf_grow (cb, n)`, `n > 0`: the unread bytes are the same before and after, also when the ring is wrapped and the
+    part from `i_rep` to the old end of the array is moved to the new end (`memmove`, `i_out` and `i_rep` relocated); the
+    new size is `Pm.Cbuf.growTo size n maxsize` — the size rule of the daemon model — and the return value is the
+    difference. -/
+theorem C09_ring_grow (r : Ring) (n : Nat) (h : r.valid = true) (hn : 0 < n) :
+    (CbufRing.grow r n).1.valid = true ∧ (CbufRing.grow r n).2.2 = true ∧ (CbufRing.grow r n).1.contents = r.contents ∧
+    (CbufRing.grow r n).1.size = Pm.Cbuf.growTo r.size n r.maxsize ∧ (CbufRing.grow r n).2.1 = Pm.Cbuf.growTo r.size n r.maxsize - r.size ∧
+    (CbufRing.grow r n).1.used = r.used := by
+  have hv := (valid_iff r).mp h
+  obtain ⟨g1, g2, g3, g4, g5, g6, _⟩ := grow_spec r n hv hn
+  rw [grownSize_eq_growTo r n hv] at g4 g5
+  exact ⟨(valid_iff _).mpr g1, g2, g3, g4, g5, g6⟩
+
+/-- a wrapped, full ring of 8 grows to 32: `8 6 7` at the end of the old array move to the end of the new one -/
+example : (CbufRing.grow wrappedFull 3).1.size = 32 ∧ (CbufRing.grow wrappedFull 3).1.i_out = 29 ∧ (CbufRing.grow wrappedFull 3).1.i_in = 4 ∧
+    (CbufRing.grow wrappedFull 3).1.contents = wrappedFull.contents := by decide
+
+/-- `cbuf_write (cb, src, len, &dropped)` in every overwrite mode.  The buffer first grows (if `len` exceeds the free
+    space and `size < maxsize`) to `sizeAfter` = `growTo`; with `l` the length the mode allows (`clipOf`: all of it for
+    `CBUF_WRAP_MANY`, at most `size` for `CBUF_WRAP_ONCE`, at most the free space for `CBUF_NO_DROP`) the return value is `l`,
+    the unread bytes are the old ones followed by the first `l` bytes of `src`, minus the oldest `used + l - size` if that
+    is positive, and exactly that number is stored in `dropped`. -/
+theorem C09_ring_write (r : Ring) (src : List UInt8) (l : Nat) (h : r.valid = true)
+    (hc : clipOf r.overwrite (sizeAfter r src.length) r.used src.length = some l) :
+    (CbufRing.write r src).rc = (l : Nat) ∧
+    (CbufRing.write r src).ring.contents =
+      (r.contents ++ src.take l).drop (r.used + l - min (r.used + l) (sizeAfter r src.length)) ∧
+    (CbufRing.write r src).ndropped = r.used + l - sizeAfter r src.length ∧
+    (CbufRing.write r src).ring.size = sizeAfter r src.length :=
+  let w := write_spec r src ((valid_iff r).mp h)
+  ⟨(w.2.2.2.2.2.2.2 l hc).1, (w.2.2.2.2.2.2.2 l hc).2.1, (w.2.2.2.2.2.2.2 l hc).2.2.1, w.2.2.1⟩
+
+/-- The mode powerman runs in (`CBUF_WRAP_MANY`, the default; it never calls `cbuf_opt_set`): everything is written; what
+    is unread afterwards is the old unread bytes followed by the new ones with the oldest `dropped` bytes removed, where
+    `dropped = used + len - size'`; and bytes are dropped **only** by a buffer that has reached `maxsize`. -/
+theorem C09_ring_write_wrap_many (r : Ring) (src : List UInt8) (h : r.valid = true) (hm : r.overwrite = .wrapMany) :
+    (CbufRing.write r src).rc = (src.length : Nat) ∧
+    (CbufRing.write r src).ring.contents = (r.contents ++ src).drop (CbufRing.write r src).ndropped ∧
+    (CbufRing.write r src).ndropped = r.used + src.length - (CbufRing.write r src).ring.size ∧
+    (0 < (CbufRing.write r src).ndropped → (CbufRing.write r src).ring.size = r.maxsize) ∧
+    (r.used + src.length ≤ r.maxsize → (CbufRing.write r src).ndropped = 0 ∧
+      (CbufRing.write r src).ring.contents = r.contents ++ src) := by
+  have hv := (valid_iff r).mp h
+  have hc : clipOf r.overwrite (sizeAfter r src.length) r.used src.length = some src.length := by rw [hm]; rfl
+  obtain ⟨w1, w2, w3, w4⟩ := C09_ring_write r src src.length h hc
+  rw [List.take_length] at w2
+  have hd : r.used + src.length - min (r.used + src.length) (sizeAfter r src.length) = r.used + src.length - sizeAfter r src.length := by omega
+  rw [hd] at w2
+  refine ⟨w1, by rw [w2, w3], by rw [w3, w4], fun hp => ?_, fun hfit => ?_⟩
+  · rw [w4]; exact sizeAfter_max_of_lt r src.length hv (by omega)
+  · have := sizeAfter_fits r src.length hv hfit
+    have h0 : r.used + src.length - sizeAfter r src.length = 0 := by omega
+    exact ⟨by rw [w3, h0], by rw [w2, h0]; rfl⟩
+
+/-- **The ring is a byte queue bounded by `maxsize`** (default mode): after `cbuf_write` of `src` the unread bytes are the
+    last `maxsize` bytes of (old unread bytes ++ `src`) — all of them if they are no more than `maxsize` — and the number
+    reported dropped is `used + len - maxsize`: the growth steps, the position of the data in the array, wraps and
+    re-layouts are invisible.  This is the rule the plain Python queue of `lib/cbuflayer.py` checks on the real code. -/
+theorem C09_ring_write_is_queue (r : Ring) (src : List UInt8) (h : r.valid = true) (hm : r.overwrite = .wrapMany) :
+    (CbufRing.write r src).rc = (src.length : Nat) ∧
+    (CbufRing.write r src).ndropped = r.used + src.length - r.maxsize ∧
+    (CbufRing.write r src).ring.contents = (r.contents ++ src).drop (r.used + src.length - r.maxsize) := by
+  have hv := (valid_iff r).mp h
+  obtain ⟨w1, w2, w3, _, _⟩ := C09_ring_write_wrap_many r src h hm
+  have hc : clipOf r.overwrite (sizeAfter r src.length) r.used src.length = some src.length := by rw [hm]; rfl
+  have hsz := (C09_ring_write r src src.length h hc).2.2.2
+  rw [hsz] at w3
+  have hd := dropped_eq r src.length src.length hv (Nat.le_refl _)
+  exact ⟨w1, by rw [w3, hd], by rw [w2, w3, hd]⟩
+
+/-- the wrapped ring of 8 with 6 unread takes 4 more bytes: it is at its maximum, the two oldest bytes go -/
+example : (CbufRing.write wrappedRing [21, 22, 23, 24]).ndropped = 2 ∧
+    (CbufRing.write wrappedRing [21, 22, 23, 24]).ring.contents = [10, 9, 10, 11, 21, 22, 23, 24] := by decide
+/-- 30 bytes into a ring of 8: the copy loop goes round the array four times, the last 8 bytes stay -/
+example : (CbufRing.write wrappedRing (List.range 30 |>.map UInt8.ofNat)).ring.contents = [22, 23, 24, 25, 26, 27, 28, 29] ∧
+    (CbufRing.write wrappedRing (List.range 30 |>.map UInt8.ofNat)).ndropped = 28 := by decide
+/-- the full wrapped ring that may still grow: it grows (wrapped) and nothing is lost -/
+example : (CbufRing.write wrappedFull [21, 22, 23]).ndropped = 0 ∧ (CbufRing.write wrappedFull [21, 22, 23]).ring.size = 32 ∧
+    (CbufRing.write wrappedFull [21, 22, 23]).ring.contents = [6, 7, 10, 9, 10, 11, 12, 13, 21, 22, 23] := by decide
+/-- `CBUF_NO_DROP` on a buffer that cannot grow: only what fits is written -/
+example : (CbufRing.write (CbufRing.optSet wrappedRing 0).2 [21, 22, 23, 24]).rc = 2 ∧
+    (CbufRing.write (CbufRing.optSet wrappedRing 0).2 [21, 22, 23, 24]).ring.contents = [6, 7, 10, 9, 10, 11, 21, 22] := by decide
+
+/-- `cbuf_write_from_fd (cb, fd, len, &dropped)` — "exactly the byte stream the device sent, in order, nothing lost or
+    duplicated while unconsumed data stays within buffer capacity, independent of how the stream was split into reads":
+    whatever each `read` call hands out (short reads, `EAGAIN`, end of file), a return value `n > 0` means that exactly the
+    next `n` bytes of the descriptor were consumed and appended to the unread bytes — after which the oldest
+    `dropped = used + n - maxsize` are gone (0 while the unread data stays within `maxsize`) — and what the descriptor still
+    holds is the rest; a return value `≤ 0` means nothing was consumed and nothing changed but (possibly) the size: the
+    buffer grows *before* the first `read`. -/
+theorem C09_ring_write_from_fd (r : Ring) (len : Int) (s : Src) (h : r.valid = true) (hl : -1 ≤ len) :
+    (CbufRing.writeFromFd r len s).ring.size = sizeAfter r (fdLen r len) ∧
+    ((CbufRing.writeFromFd r len s).rc ≤ 0 →
+      (CbufRing.writeFromFd r len s).ring.contents = r.contents ∧ (CbufRing.writeFromFd r len s).g.pending = s.avail ∧
+      (CbufRing.writeFromFd r len s).ndropped = 0) ∧
+    (0 < (CbufRing.writeFromFd r len s).rc →
+      ∃ n, (CbufRing.writeFromFd r len s).rc = (n : Nat) ∧ n ≤ fdLen r len ∧ n ≤ s.avail.length ∧
+        (CbufRing.writeFromFd r len s).ring.contents =
+          (r.contents ++ s.avail.take n).drop (CbufRing.writeFromFd r len s).ndropped ∧
+        (CbufRing.writeFromFd r len s).g.pending = s.avail.drop n ∧
+        (CbufRing.writeFromFd r len s).ndropped = r.used + n - r.maxsize ∧
+        (0 < (CbufRing.writeFromFd r len s).ndropped → sizeAfter r (fdLen r len) = r.maxsize)) := by
+  have hv := (valid_iff r).mp h
+  obtain ⟨_, _, _, h4⟩ := writeFromFd_spec r len s hv
+  obtain ⟨f1, _, _, _, f5, f6⟩ := h4 hl
+  refine ⟨f1, f5, fun hp => ?_⟩
+  obtain ⟨n, n1, n2, n3, n4, n5, n6, n7, n8⟩ := f6 hp
+  refine ⟨n, n1, n3, n4, ?_, n7, by rw [n8]; exact dropped_eq r _ n hv n3, fun hd => ?_⟩
+  · rw [n6, n8]; congr 1; omega
+  · rw [n8] at hd
+    by_cases hfit : r.used + fdLen r len ≤ r.maxsize
+    · have := sizeAfter_fits r (fdLen r len) hv hfit; omega
+    · have hlt : sizeAfter r (fdLen r len) < r.used + fdLen r len := by
+        have := (growStep_spec r (fdLen r len) hv).2.2.2.2.2.2.2.2.2.2; omega
+      exact sizeAfter_max_of_lt r (fdLen r len) hv hlt
+
+/-- a descriptor with five bytes that hands out at most two per `read`: the wrapped ring (2 free of 8) asks for 2 and gets
+    them with one call; the other three stay in the descriptor -/
+example : (CbufRing.writeFromFd wrappedRing (-1) { avail := [31, 32, 33, 34, 35], caps := [2], eof := false }).rc = 2 ∧
+    (CbufRing.writeFromFd wrappedRing (-1) { avail := [31, 32, 33, 34, 35], caps := [2], eof := false }).ring.contents = [6, 7, 10, 9, 10, 11, 31, 32] ∧
+    (CbufRing.writeFromFd wrappedRing (-1) { avail := [31, 32, 33, 34, 35], caps := [2], eof := false }).g.pending = [33, 34, 35] := by decide
+
+/-- **The tie to sections 1–7.**  For the call the daemon makes — `cbuf_write_from_fd (cb, fd, -1, &dropped)`, default
+    mode, the descriptor handing out what it has — the ring's size afterwards, the byte count and the dropped count are
+    exactly `Pm.Cbuf.readPlan size used maxsize avail`, the rule the daemon model applies to its byte-list buffers
+    (`C09_capacity`, `C09_no_loss_below_max`, `C09_overflow_drops_oldest`). -/
+theorem C09_ring_read_plan (r : Ring) (s : Src) (h : r.valid = true) (hm : r.overwrite = .wrapMany) (hc : s.caps = []) :
+    (CbufRing.writeFromFd r (-1) s).ring.size = (Pm.Cbuf.readPlan r.size r.used r.maxsize s.avail.length).2.1 ∧
+    (0 < (Pm.Cbuf.readPlan r.size r.used r.maxsize s.avail.length).1 →
+      (CbufRing.writeFromFd r (-1) s).rc = ((Pm.Cbuf.readPlan r.size r.used r.maxsize s.avail.length).1 : Nat) ∧
+      (CbufRing.writeFromFd r (-1) s).ndropped = (Pm.Cbuf.readPlan r.size r.used r.maxsize s.avail.length).2.2) ∧
+    ((Pm.Cbuf.readPlan r.size r.used r.maxsize s.avail.length).1 = 0 →
+      (CbufRing.writeFromFd r (-1) s).rc ≤ 0 ∧ (CbufRing.writeFromFd r (-1) s).ndropped = 0) :=
+  writeFromFd_readPlan r s ((valid_iff r).mp h) hm hc
+
+/-- the full wrapped ring asks for a chunk of 1000, grows to its maximum of 32 first, and reads what is there -/
+example : Pm.Cbuf.readPlan 8 8 32 5 = (5, 32, 0) ∧
+    (CbufRing.writeFromFd wrappedFull (-1) { avail := [1, 2, 3, 4, 5], caps := [], eof := false }).rc = 5 ∧
+    (CbufRing.writeFromFd wrappedFull (-1) { avail := [1, 2, 3, 4, 5], caps := [], eof := false }).ring.size = 32 := by decide
+
+/-- `cbuf_read_line (cb, buf, len, lines)`: the return value is what `cbuf_find_unread_line` finds on the unread bytes
+    (`findLineSpec`: for `lines > 0` the bytes up to and including the `lines`-th line feed, or 0 if there are fewer —
+    all or none; for -1 the complete lines among the first `len - 1` bytes); `buf` receives the first `min n (len - 1)` of
+    these bytes and exactly the first `n` unread bytes leave the ring (a line longer than `buf` is cut and its tail
+    discarded, as `cbuf.h` documents); with `n = 0` nothing changes. -/
+theorem C09_ring_read_line (r : Ring) (len lines : Int) (h : r.valid = true) (hl : 0 ≤ len) (hn : 1 ≤ lines ∨ lines = -1) :
+    (CbufRing.readLine r len lines).1 = ((findLineSpec r.contents (len - 1) lines).1 : Nat) ∧
+    (CbufRing.readLine r len lines).2.2.1.contents = r.contents.drop (findLineSpec r.contents (len - 1) lines).1 ∧
+    (0 < (findLineSpec r.contents (len - 1) lines).1 → 0 < len →
+      (CbufRing.readLine r len lines).2.1 = some (r.contents.take (min (findLineSpec r.contents (len - 1) lines).1 (len - 1).toNat))) ∧
+    (findLineSpec r.contents (len - 1) lines).1 ≤ r.used := by
+  have hv := (valid_iff r).mp h
+  obtain ⟨_, _, _, h4⟩ := readLine_spec r len lines hv
+  obtain ⟨s1, s2, s3⟩ := h4 (by omega)
+  have h0 : ¬ lines = 0 := by omega
+  simp only [h0, ↓reduceIte] at s1 s2
+  refine ⟨s1, s2, fun hp hlen => ?_, ?_⟩
+  · rw [s3]; simp [h0, hp, hlen]
+  · have := findLineSpec_le r.contents (len - 1) lines
+    rw [hv.contents_length] at this; exact this
+
+/-- The call `client.c` makes (`lines = 1`): if the unread bytes contain a line feed, the first line — everything up to
+    and including it — is returned in `buf` and leaves the ring, wherever in the array it lies; otherwise 0 is returned
+    and nothing changes. -/
+theorem C09_ring_read_one_line (r : Ring) (len : Int) (h : r.valid = true) (hl : 0 ≤ len) :
+    (10 ∈ r.contents → ((r.contents.takeWhile (· != 10)).length + 1 : Nat) < len →
+      (CbufRing.readLine r len 1).1 = (((r.contents.takeWhile (· != 10)).length + 1 : Nat) : Int) ∧
+      (CbufRing.readLine r len 1).2.1 = some (r.contents.takeWhile (· != 10) ++ [10]) ∧
+      (CbufRing.readLine r len 1).2.2.1.contents = (r.contents.dropWhile (· != 10)).drop 1) ∧
+    (10 ∉ r.contents → (CbufRing.readLine r len 1).1 = 0 ∧ (CbufRing.readLine r len 1).2.1 = none ∧
+      (CbufRing.readLine r len 1).2.2.1.contents = r.contents) :=
+  readLine_one r len ((valid_iff r).mp h) hl
+
+/-- the line `6 7 \n` starts at slot 5 of 9 and ends at slot 7; the next one, `9 \n`, lies across the end of the array -/
+example : (CbufRing.readLine wrappedRing 100 1).1 = 3 ∧ (CbufRing.readLine wrappedRing 100 1).2.1 = some [6, 7, 10] ∧
+    (CbufRing.readLine wrappedRing 100 1).2.2.1.contents = [9, 10, 11] := by decide
+example : (CbufRing.readLine (CbufRing.readLine wrappedRing 100 1).2.2.1 100 1).2.1 = some [9, 10] ∧
+    (CbufRing.readLine (CbufRing.readLine wrappedRing 100 1).2.2.1 100 1).2.2.1.contents = [11] := by decide
+/-- two lines at once, all or none -/
+example : (CbufRing.readLine wrappedRing 100 2).1 = 5 ∧ (CbufRing.readLine wrappedRing 100 3).1 = 0 := by decide
+/-- a buffer of 3 for a line of 3: two bytes and the NUL fit, the line feed is dropped with the line -/
+example : (CbufRing.readLine wrappedRing 3 1).1 = 3 ∧ (CbufRing.readLine wrappedRing 3 1).2.1 = some [6, 7] ∧
+    (CbufRing.readLine wrappedRing 3 1).2.2.1.contents = [9, 10, 11] := by decide
+
+/-- `cbuf_flush` empties the ring and keeps it valid (this is what a reconnect does to both buffers of a device). -/
+theorem C09_ring_flush (r : Ring) (h : r.valid = true) : (CbufRing.flush r).valid = true ∧ (CbufRing.flush r).contents = [] :=
+  ⟨(valid_iff _).mpr (flush_valid r ((valid_iff r).mp h)), flush_contents r ((valid_iff r).mp h)⟩
+
+example : (CbufRing.flush wrappedRing).contents = [] ∧ (CbufRing.flush wrappedRing).i_in = 0 := by decide
+
+end ring
 
 end Pm.Props.C09
